@@ -16,7 +16,8 @@ VC_MESSAGES = (
     'loop invariant not satisfied', 'invariant not satisfied at end of loop body', 'invariant not satisfied before loop',
     'could not prove termination', 'decreases not satisfied', 'recommendation not met',
     'unable to prove assertion', 'assert_by', 'loop ensures not satisfied', 'possible index out of bounds',
-    'value may be out of range', 'postcondition of loop not satisfied',
+    'value may be out of range', 'postcondition of loop not satisfied', 'unable to prove post-condition of closure',
+    'unable to prove pre-condition of closure', 'arithmetic underflow/overflow',
 )
 
 
@@ -36,6 +37,9 @@ def generate(unit, snapshot, out_path, canary=False):
     tpl = os.path.join(UNITS, unit + '.rs')
     text, metas = extract.build_unit(tpl, UNITS, snapshot, canary=canary)
     lines = text.split('\n')
+    skipped = [m for m in metas if m.get('skipped')]
+    metas[:] = [m for m in metas if not m.get('skipped')]
+    generate.skipped = [m['fn'] for m in skipped]
     for m in metas:
         before = '\n'.join(lines[:m['gen_lines'][0] - 1])
         m['impl_ctx'] = impl_context(before)
